@@ -3,6 +3,9 @@ from ..rules import gr, tc, dar
 
 
 def check(ctx, rep):
+    from ..rules import shape
+    _n = shape.gr_10(ctx, rep, ['parso/python/tree.py'])
+    rep.minimum('GR-10', 5)
     gr.gr_8a(ctx, rep)
     gr.gr_8b(ctx, rep)
     tc.tc_sites(ctx, rep, 'parso/python/tree.py', 'TC-1')
